@@ -1,5 +1,9 @@
 """C09 -- decoded and encoded data do not depend on I/O chunking or scheduling.
 
+0. translator   : tools/gen_Suspend.py reads statement-order facts (commit after the last suspendable read,
+                  entropy state committed at MCU end, no lossless predictor reset at output-pass start)
+                  from the current jdmarker.c / jdhuff.c / jchuff.c / jdmaster.c -> coq/gen/GenSuspend.v
+
 1. proofs       : coq/props/C09.v (model/Suspend*.v, proofs/Suspend*.v): generic chunking theorem for
                   resumable unit parsers, resumability of every modelled marker routine / save_marker /
                   the Huffman MCU unit, destination-independence of the encoder model.
@@ -107,6 +111,7 @@ class Runner:
 
 def run(ctx):
     rng = ctx.rng
+    ctx.regen(["Suspend"])
     ctx.prove()
     drv = ctx.model_driver()
     flavours = ["simd", "plain"] if not ctx.thorough() else ["simd", "plain", "asan"]
